@@ -7,6 +7,7 @@ import (
 	"fmt"
 	"os"
 	"strconv"
+	"time"
 )
 
 func concStr(v Value, what string) string {
@@ -284,6 +285,23 @@ func (w *Worker) assertion(st *State, label string, c *Term) {
 	case Unsat:
 		j.Discharged++
 		j.noteProved(label, st, q)
+		// thorough tier: a sample of the discharged obligations is re-decided by two other
+		// solvers on the standalone script; a disagreement is an engine/solver defect
+		if w.eng.tier == 1 && j.CrossChecked < 20 && !c.isConst() {
+			j.CrossChecked++
+			script := standaloneScript(q)
+			for _, alt := range [][]string{{"z3", "-in", "-T:30"}, {"cvc5", "--lang=smt2", "--tlimit=30000"}} {
+				out, err := oneShot(alt, script, 40*time.Second)
+				switch {
+				case err == nil && out == "unsat":
+					j.CrossAgree++
+				case err == nil && out == "sat":
+					j.Disagree = append(j.Disagree, alt[0]+" says sat for obligation "+label)
+				default:
+					j.CrossInconclusive++
+				}
+			}
+		}
 	case Unknown:
 		if d := os.Getenv("VERIF_DUMP_UNKNOWN"); d != "" {
 			os.WriteFile(fmt.Sprintf("%s/unknown-%s-%d.smt2", d, label, j.Obligations), []byte(standaloneScript(q)), 0o644)
